@@ -33,7 +33,8 @@ def aberration_sets():
             sets.append({s: sc[int(s[1])]})
         else:
             sets.append({"C" + s[3:]: sc[int(s[3])], s: 0.7})
-    sets += [{"C10": -80.0, "C30": 2e5, "C12": 40.0, "phi12": 0.4}, {"C21": 900.0, "phi21": -1.0, "C23": 500.0, "phi23": 0.3, "C50": 5e7},
+    sets += [{"C10": "gauss"}, {"C30": "values", "C10": 60.0}, {"defocus": "gauss", "C12": "values"},
+             {"C10": -80.0, "C30": 2e5, "C12": 40.0, "phi12": 0.4}, {"C21": 900.0, "phi21": -1.0, "C23": 500.0, "phi23": 0.3, "C50": 5e7},
              {"C10": 150.0, "C32": 3e4, "phi32": 1.2, "C34": 2e4, "phi34": -0.2, "C45": 1e6, "phi45": 0.5}]
     return sets
 
@@ -48,7 +49,7 @@ def check(ctx):
         if q and tilt == "dist" and ab % 7:
             continue
         cases.append({"who": "probe", "g": g, "e": e, "cut": cut, "soft": soft, "ab": ab, "tilt": tilt, "pos": "list3", "lazy": False})
-    for g, e, cut, soft, ab, tilt, pos, lazy in itertools.product(grids, energies, range(3), (True, False), (0, 3, nab - 3, nab - 1), ("none", "scalar", "dist"),
+    for g, e, cut, soft, ab, tilt, pos, lazy in itertools.product(grids, energies, range(3), (True, False), (0, 3, nab - 6, nab - 4, nab - 1), ("none", "scalar", "dist"),
                                                                    ("none", "origin", "subpixel", "list3", "grid"), (False, True)):
         if q and (g % 2 or cut == 0) and not (pos == "grid" and lazy):
             continue
@@ -89,7 +90,14 @@ def run_case(c):
         if not e <= 1e-6:
             viol.append({"key": "planewave/unit-modulus", "msg": "|psi| deviates from 1 by %.3g (%s)" % (e, c)})
         return {"viol": viol, "obs": "modulus", "nt": c["tilt"] != "none", "err": e / 1e-6}
-    ab = aberration_sets()[c["ab"]]
+    import abtem.distributions as D
+
+    ab = dict(aberration_sets()[c["ab"]])
+    for k, v in list(ab.items()):  # distribution-valued aberrations (weighted and unweighted): every member must still be normalised
+        if v == "gauss":
+            ab[k] = D.gaussian(30.0, 3, center=20.0, ensemble_mean=False, sampling_limit=2.0)
+        elif v == "values":
+            ab[k] = D.from_values([1e4, 8e4] if k == "C30" else [15.0, 40.0])
     probe = abtem.Probe(semiangle_cutoff=CUTOFFS[c["cut"]], soft=c["soft"], gpts=gpts, extent=extent, energy=c["e"], tilt=tilt_of(c["tilt"]), **ab)
     pos = {"none": None, "origin": abtem.CustomScan([[0.0, 0.0]]), "subpixel": abtem.CustomScan([[0.37 * extent[0] / gpts[0], 1.61 * extent[1] / gpts[1]]]),
            "list3": abtem.CustomScan([[0.0, 0.0], [1.3, 2.2], [extent[0] - 1e-3, 0.5 * extent[1]]]),
@@ -102,6 +110,6 @@ def run_case(c):
     if not e <= 1e-5 or not np.isfinite(arr).all():
         kind = "aberrated" if ab else "plain"
         viol.append({"key": "probe/intensity/%s/%s" % (kind, "tilted" if c["tilt"] != "none" else "untilted"),
-                     "msg": "sum|FFT psi|^2 = %r for members of shape %r, aberrations %r (%s)" % (np.round(np.ravel(inten)[:4], 6).tolist(), arr.shape[:-2], ab, c)})
+                     "msg": "sum|FFT psi|^2 = %r for members of shape %r, aberrations %r (%s)" % (np.round(np.ravel(inten)[:4], 6).tolist(), arr.shape[:-2], aberration_sets()[c["ab"]], c)})
     return {"viol": viol, "obs": "%.5f" % float(np.mean(inten)), "nt": bool(ab) or c["tilt"] != "none" or c["pos"] in ("list3", "grid"), "tr": 1,
             "ref": int(np.size(inten)), "err": e / 1e-5}
